@@ -209,6 +209,41 @@ pub fn run(ctx: &Ctx) -> Report {
       }
     }
   } else {
+    // a fixed corpus first: spellings the generators below do not produce, with the value the URL host rules give them
+    let long_label = "a".repeat(64);
+    let corpus: Vec<(String, Kind)> = vec![
+      ("ex%61mple.com:6881".into(), Kind::Valid(Some("example.com:6881".into()))),
+      ("%31.2.3.4:80".into(), Kind::Valid(Some("1.2.3.4:80".into()))),
+      ("b\u{fc}cher.example:6881".into(), Kind::Valid(Some("xn--bcher-kva.example:6881".into()))),
+      ("EXAMPLE\u{3002}com:1".into(), Kind::Valid(Some("example.com:1".into()))),
+      ("\u{ff11}.\u{ff12}.\u{ff13}.\u{ff14}:80".into(), Kind::Valid(Some("1.2.3.4:80".into()))),
+      ("router.example.com.:6881".into(), Kind::Valid(Some("router.example.com.:6881".into()))),
+      (format!("{long_label}.example:6881"), Kind::Valid(Some(format!("{long_label}.example:6881")))),
+      ("example.com:000080".into(), Kind::Valid(Some("example.com:80".into()))),
+      ("[::1]:0065535".into(), Kind::Valid(Some("[::1]:65535".into()))),
+      ("example.com:0".into(), Kind::Valid(Some("example.com:0".into()))),
+      ("[::]:000".into(), Kind::Valid(Some("[::]:0".into()))),
+      ("a,b.example:1".into(), Kind::Valid(Some("a,b.example:1".into()))),
+      ("[fe80::1%3]:6881".into(), Kind::MustReject),
+      ("[fe80::1%25eth0]:6881".into(), Kind::MustReject),
+      ("[192.0.2.1]:6881".into(), Kind::MustReject),
+      ("[router.example.com]:1337".into(), Kind::MustReject),
+      ("a.example:1,b.example:2".into(), Kind::MustReject),
+      ("example.com:\u{ff11}\u{ff12}".into(), Kind::Unpinned),
+      ("example.com:\u{661}\u{662}\u{663}".into(), Kind::Unpinned),
+      (" example.com:80".into(), Kind::MustReject),
+      ("example.com:80 ".into(), Kind::MustReject),
+      ("example.com:80\n".into(), Kind::MustReject),
+      ("\texample.com:80".into(), Kind::Unpinned),
+      ("example.com:+80".into(), Kind::MustReject),
+      ("example.com:0x50".into(), Kind::MustReject),
+      ("example.com:65535".into(), Kind::Valid(Some("example.com:65535".into()))),
+      ("example.com:65536".into(), Kind::MustReject),
+      ("example.com:99999999999999999999".into(), Kind::MustReject),
+    ];
+    for (t, k) in corpus {
+      inputs.push((t, k, "corpus"));
+    }
     let mut rng = Rng::new(ctx.seed).fork(0xC17);
     for _ in 0..ctx.n(5000, 300_000) {
       inputs.push(gen(&mut rng));
@@ -322,7 +357,12 @@ pub fn run(ctx: &Ctx) -> Report {
     };
     let sb = Sandbox::new(&ctx.work, "c17");
     sb.write("in", b"x");
-    let mut args: Vec<String> = ["torrent", "create", "--input", "in", "--output", "o.torrent", "--node", text.as_str(), "--node", second.as_str()].iter().map(|s| s.to_string()).collect();
+    // (every third case gives both values after a single flag: `--node A B`)
+    let mut args: Vec<String> = if ci % 3 == 2 {
+      ["torrent", "create", "--input", "in", "--output", "o.torrent", "--node", text.as_str(), second.as_str()].iter().map(|s| s.to_string()).collect()
+    } else {
+      ["torrent", "create", "--input", "in", "--output", "o.torrent", "--node", text.as_str(), "--node", second.as_str()].iter().map(|s| s.to_string()).collect()
+    };
     args.extend(extra.iter().map(|s| s.to_string()));
     let out = Cmd::args_owned(&ctx.imdl, args).cwd(&sb.root).run();
     report.case(Some(fnv_str(&format!("cli:{text}"))));
@@ -347,7 +387,13 @@ pub fn run(ctx: &Ctx) -> Report {
       })
     });
     let want_stored = vec![split(&want), split(&want2)];
-    if stored.as_ref() != Some(&want_stored) {
+    // (an IPv6 host may be stored in any spelling of the same address: the standard library writes IPv4-mapped ones with a dotted tail)
+    let same_host = |a: &str, b: &str| match (a.parse::<std::net::Ipv6Addr>(), b.parse::<std::net::Ipv6Addr>()) {
+      (Ok(x), Ok(y)) => x == y,
+      _ => a == b,
+    };
+    let stored_ok = stored.as_ref().map(|s| s.len() == want_stored.len() && s.iter().zip(want_stored.iter()).all(|(g, w)| g.1 == w.1 && same_host(&g.0, &w.0))).unwrap_or(false);
+    if !stored_ok {
       report.fail("property", "hostport-cli", case, format!("given `{text}` and `{second}` with {extra:?}: stored `nodes` = {stored:?}, expected {want_stored:?}"));
       continue;
     }
